@@ -595,6 +595,17 @@ func renderStep(env *Env, st *Step) Result {
 		}
 		ctx.Pop()
 	}
+	res := renderOnce(c, d, st)
+	if st.Repeat && st.FailAt == 0 {
+		// the same canvas object, the same fonts, the same options, again
+		if again := renderOnce(c, d, st); !again.Equal(res) {
+			res.RepeatDiff = fmt.Sprintf("first render: %s; second render of the same canvas: %s", res.Brief, again.Brief)
+		}
+	}
+	return res
+}
+
+func renderOnce(c *canvas.Canvas, d *Drawing, st *Step) Result {
 	sink := &faultySink{failAt: st.FailAt}
 	buf := sink
 	var err error
@@ -617,7 +628,14 @@ func renderStep(env *Env, st *Step) Result {
 		err = r.Close()
 	case "png":
 		res := canvas.DPMM([]float64{2, 4, 1}[st.Opt%3])
-		img := rasterizer.Draw(c, res, canvas.DefaultColorSpace)
+		var cs canvas.ColorSpace = canvas.DefaultColorSpace
+		switch st.Opt / 3 {
+		case 1:
+			cs = canvas.SRGBColorSpace{}
+		case 2:
+			cs = canvas.GammaColorSpace{Gamma: 2.2}
+		}
+		img := rasterizer.Draw(c, res, cs)
 		err = png.Encode(buf, img)
 	default:
 		panic("unknown format " + st.Format)
